@@ -702,7 +702,9 @@ def _lnk(target: str, parameters: dict | None = None, body: Any = "$NONE", merge
     return out
 
 
-_NESTED = {"name": "$response.body#/name", "nested": {"k": ["$statusCode", "{$request.body#/name}!"]}, "n": 1}
+# (containers as elements of a list are a code path of their own in the nested evaluation)
+_NESTED = {"name": "$response.body#/name", "nested": {"k": ["$statusCode", "{$request.body#/name}!"]}, "n": 1,
+           "items": [{"pid": "$response.body#/id"}, ["$statusCode"]]}
 
 SHAPES: dict[str, dict] = {
     "opid_bare": {"links": {"201": {"L": _lnk("peek", {"id": "$response.body#/id", "q": "$request.body#/name"})}}},
